@@ -135,6 +135,10 @@ def hash_mutable(obj) -> int:
     if isinstance(obj, slice):
         return hash((obj.start, obj.stop, obj.step))
 
+    if isinstance(obj, (int, float, complex, np.number)) and not isinstance(obj, bool):
+        # the internal hash function is not injective for numbers; hash(-1) == hash(-2)
+        return hash((obj.__class__.__name__, repr(obj)))
+
     try:
         # try using the internal hash function
         return hash(obj)
